@@ -125,6 +125,8 @@ class Gen:
         self.vlen = [0] * NV
         self.slen = [0] * NS          # upper bounds only for sets
         self.smin = [0] * NS          # lower bound of the set size
+        self.big = [False] * NB       # taint, see emit
+        self.cbig = {}
         self.calls = []
 
     def b(self):
@@ -143,8 +145,44 @@ class Gen:
             self.ty[i] = t
             self.ival[i] = ival if not may_fail else (ival if self.ival[i] == ival else None)
 
+    # ---- taint: values whose magnitude makes the C++ core itself run out of time or memory (gamma(2^63), 2^(2^62), ...)
+    #      are kept away from the functions that compute with the magnitude; the wrapper layer is exercised all the same
+    DANGER = {"basic_gamma", "basic_loggamma", "basic_lowergamma", "basic_uppergamma", "basic_polygamma", "basic_beta",
+              "basic_zeta", "basic_dirichlet_eta", "basic_pow", "basic_expand", "basic_lambertw", "ntheory_nextprime",
+              "ntheory_binomial", "basic_evalf", "basic_subs", "basic_subs2", "basic_mul_vec", "basic_erf", "basic_erfc"}
+    NO_OUT = {"basic_eq", "basic_neq", "basic_has_symbol", "basic_get_type", "basic_hash", "basic_dumps", "integer_get_si",
+              "integer_get_ui", "real_double_get_d", "basic_get_args", "basic_free_symbols"}
+
     def emit(self, s):
+        toks = s.split()
+        fn = toks[0]
+        bs = [int(t[1:]) for t in toks[1:] if re.match(r"^b\d+$", t)]
+        cs = [t for t in toks[1:] if re.match(r"^[vsm]\d+$", t)]
+        lit_big = any((t.startswith("i:") and abs(int(t[2:])) > 2 ** 20) for t in toks[1:]) and fn in (
+            "integer_set_si", "integer_set_ui")
+        lit_big = lit_big or (fn == "integer_set_str" and len(toks[2]) > 3 + 2 * 7)
+        lit_big = lit_big or (fn == "basic_parse" and any(h in toks[2] for h in (hx("2**100")[1:], hx("1e10")[1:])))
+        lit_big = lit_big or (fn == "real_double_set_d" and toks[2] in ("d:7ff0000000000000", "d:7ff8000000000000"))
+        no_out = (fn in self.NO_OUT or fn.startswith("is_a_") or fn.startswith("number_is_") or fn.startswith("basic_str")
+                  or fn.startswith("basic_set_is_") or fn.startswith("setbasic_") or fn.startswith("mapbasicbasic_")
+                  or fn.startswith("vecbasic_") or fn.startswith("lambda_"))
+        if fn in ("vecbasic_get", "setbasic_get", "mapbasicbasic_get"):
+            ins, out = bs[:-1], bs[-1:]
+        elif no_out or not bs:
+            ins, out = bs, []
+        else:
+            ins, out = bs[1:], bs[:1]
+        tainted = any(self.big[i] for i in ins) or any(self.cbig.get(c, False) for c in cs)
+        if fn in self.DANGER and tainted:
+            return False
         self.calls.append(s)
+        for o in out:
+            self.big[o] = tainted or lit_big
+        if fn in ("vecbasic_push_back", "vecbasic_set", "setbasic_insert", "mapbasicbasic_insert", "basic_get_args",
+                  "basic_free_symbols", "basic_function_symbols"):
+            for c in cs:
+                self.cbig[c] = self.cbig.get(c, False) or tainted
+        return True
 
     def gen_leaf(self, i=None):
         rng = self.rng
@@ -557,8 +595,11 @@ def explore(ctx, drv, model, cases, search=False, stats=None):
             kind, fn, k, how = death
             call = c.split(" ; ")[k] if 0 <= k < len(c.split(" ; ")) else "?"
             if kind == "core-crash":
-                ctx.violation("C42/core-crash:%s" % fn,
-                              "the C++ API call behind `%s` kills the process (%s): neither a result nor an error code can come back (sequence `%s`)" % (call, how, c), rep)
+                # the C++ API call itself died (resource exhaustion or a defect of the core): there is no C++ result the C
+                # function could agree with -- outside this property; recorded, not a violation
+                ctx.core_deaths = getattr(ctx, "core_deaths", 0) + 1
+                if len(ctx.notes) < 8:
+                    ctx.notes.append("C++ core died (%s) behind `%s` in `%s`" % (how, call, c[:300]))
             else:
                 ctx.violation("C42/crash:%s" % fn,
                               "C call `%s` kills the process (%s) instead of returning an error code (sequence `%s`; model: %s)" % (call, how, c, (m or "")[-80:]), rep)
@@ -636,7 +677,8 @@ def run(ctx):
     ctx.cov["samples"] += [{"sequence": c} for c in cases[:3]]
     ctx.assumptions += [
         "the C++ core is an oracle of the model: theorems hold for every core behaviour (value or exception); termination and "
-        "memory safety of the core itself are outside this property (a core that kills the process is reported as core-crash)",
+        "memory safety of the core itself are outside this property (a C++ API call that kills the process before the C "
+        "function is even called is recorded in the notes, not reported as a violation)",
         "std::vector / std::set / std::map behave as lists / sorted lists under RCPBasicKeyLess (the comparator is the model of C02)",
         "out-of-memory (std::bad_alloc from push_back / new) is not modelled",
         "type preconditions implied by unchecked casts (rcp_static_cast / down_cast of an argument) are part of the domain: a call "
